@@ -38,6 +38,7 @@ FORMULAS = {
     'count_mixed': '=COUNT(B1:B2,1,"2",B1)', 'index_multi': '=INDEX((B1:B2,C1:C2),1,1,2)', 'sumif_cell': '=SUMIF(B1,">0")',
     'address5': '=ADDRESS(1,2,4,TRUE,"S")', 'text_fn': '=TEXT(B1,"0.00")', 'neg_pct_chain': '=-B1%+2%',
     'row_zero': '=A0+1', 'abs_row_zero': '=$B$0', 'range_row_zero': '=SUM(A0:A2)', 'col_4letters': '=ZZZZ1+1', 'wholecol_4letters': '=SUM(AAAA:AAAA)',
+    'half_open_area': '=SUM(B1:C)', 'half_open_area2': '=SUM(B:C2)', 'empty_title': '=!B1+1', 'empty_quoted_title': "=''!B1+1",
     'col_beyond_xfd': '=XFE1+1', 'row_huge': '=A99999999+1', 'brackets8': '=((((((((B1))))))))+1',
 }
 
